@@ -194,4 +194,43 @@ def generateForRounds (firstValid lastValid dil : Nat) (hd : 0 < dil) : State :=
   generate (idForRound firstValid dil hd).batch
     ((idForRound lastValid dil hd).batch - (idForRound firstValid dil hd).batch + 1)
 
+/-! ## Persistence layer (data/account/participation.go: PersistedParticipation)
+
+`DeleteOldKeys(r)` = `Voting.DeleteBeforeFineGrained(OneTimeIDForRound(r, d), d)`, then `Voting.Snapshot()` of the
+ADVANCED secrets is encoded and written to the part-key DB; the returned channel yields nil when the write committed
+(the acknowledged point).  A restart reloads the secrets with `RestoreParticipation` (msgpack decode of what is on disk).
+Only acknowledged advances are modelled (the history waits for the channel). -/
+
+/-- msgpack round trip of OneTimeSignatureSecretsPersistent (`omitempty,omitemptyarray`): an empty `Batches` slice is
+    omitted and comes back as nil; everything else is restored as written -/
+def reload (s : State) : State := { s with batchesNonNil := !s.batches.isEmpty }
+
+/-- a node: the secrets in memory and the secrets in the part-key DB -/
+structure Node where
+  mem : State
+  disk : State
+deriving DecidableEq, Repr
+
+inductive NOp where
+  | advance (cur : Id) (numKeys : Nat)   -- DeleteOldKeys, acknowledged
+  | restart                              -- process restart: RestoreParticipation from the DB
+deriving DecidableEq, Repr
+
+/-- FillDBWithParticipationKeys persists the freshly generated secrets -/
+def nodeInit (start n : Nat) : Node := ⟨generate start n, generate start n⟩
+
+def nstep (nd : Node) : NOp → Node
+  | .advance cur nk =>
+    let m := deleteBeforeFineGrained nd.mem cur nk    -- first advance the in-memory secrets …
+    ⟨m, m⟩                                            -- … then persist Snapshot() of the advanced secrets:  disk := mem
+  | .restart => ⟨reload nd.disk, nd.disk⟩             -- mem := what is on disk
+
+def nrun (nd : Node) (h : List NOp) : Node := h.foldl nstep nd
+
+/-- the advance operations of a history -/
+def advancesOf : List NOp → List Op
+  | [] => []
+  | .advance cur nk :: rest => ⟨cur, nk⟩ :: advancesOf rest
+  | .restart :: rest => advancesOf rest
+
 end AlgoVerif.Model.OneTimeSig
